@@ -183,4 +183,336 @@ theorem merge_matched_term {S : Schema} (K : KeyOrderOn S P) {o : MergeOpts}
       · exact Or.inr (matchP_src_of_left K hsd htd hmd hmm hm)
       · exact Or.inl (by simp [h])
 
+/-! ### the recursion into two inner nodes with operation `none` -/
+
+def NodeMergeSpec (S : Schema) (P : DNode → Bool) (fx : Fixes) (o : MergeOpts) (src : DNode) : Prop :=
+  ∀ (n : Nat) (hp : Bool) (cur sin : Option Op) (kp Tb L Y : List DNode) (E : DNode → Option DNode),
+    InhOK cur → InhOK sin → src.height ≤ n → goodT S P L = true → goodT S P Y = true →
+    (∀ c, KeysBelow S c Y → KeysBelow S c L) → (∀ k ∈ kp, S.isKey k.sid = true ∧ k.sid < src.sid) →
+    TInv S P fx cur Tb L E → Rel S P Tb L E Y →
+    (∀ t ∈ Tb, matchP S src t = true → Orig S P cur L t ∧ safeP S cur sin t src = true) →
+    exactE S P sin (look S Y src) src = true → litN src = true → KeysBelow S src Y →
+    MergeConcl S P fx o n hp cur sin src kp Tb L Y
+
+def ListMergeSpec (S : Schema) (P : DNode → Bool) (fx : Fixes) (o : MergeOpts) (cs : List DNode) : Prop :=
+  ∀ (n : Nat) (hp : Bool) (cur sin : Option Op) (ld : Bool) (kp Tb L Y : List DNode) (E : DNode → Option DNode),
+    InhOK cur → InhOK sin → heightL cs ≤ n → goodT S P L = true → goodT S P Y = true →
+    (∀ c, KeysBelow S c Y → KeysBelow S c L) → (∀ k ∈ kp, S.isKey k.sid = true ∧ ∀ c ∈ dk S ld cs, k.sid < c.sid) →
+    TInv S P fx cur Tb L E → Rel S P Tb L E Y →
+    (∀ c ∈ dk S ld cs, ∀ t ∈ Tb, matchP S c t = true → Orig S P cur L t ∧ safeP S cur sin t c = true) →
+    exactK S P sin Y ld cs = true → litL cs = true →
+    ∃ M E' Y', mergeKids S o cur sin ld cs (kp ++ Tb) = .ok (kp ++ M) ∧ applyF S fx n hp sin (dk S ld cs) Y = .ok Y' ∧
+      goodT S P Y' = true ∧ keysOf S Y' = keysOf S Y ∧ TInv S P fx cur M L E' ∧ Rel S P M L E' Y'
+
+theorem childInh_inhOK {d : DNode} {inh : Option Op} (h : effOp d inh = some .none) (hi : InhOK inh) : InhOK (childInhOf d inh) := by
+  unfold childInhOf
+  cases ho : ownOp d with
+  | none => exact hi
+  | some o =>
+    have : o = .none := by simpa [effOp, ho] using h
+    subst this
+    exact Or.inr rfl
+
+theorem split_keys {S : Schema} {kp M : List DNode} (hk : ∀ k ∈ kp, S.isKey k.sid = true) (hm : ∀ m ∈ M, S.isKey m.sid = false) :
+    keysOf S (kp ++ M) = kp ∧ noKeys S (kp ++ M) = M := by
+  induction kp with
+  | nil =>
+    cases M with
+    | nil => exact ⟨rfl, rfl⟩
+    | cons m ms =>
+      have := hm m (by simp)
+      simp [keysOf, noKeys, List.takeWhile_cons, List.dropWhile_cons, this]
+  | cons k ks ih =>
+    have h1 := hk k (by simp)
+    have ⟨i1, i2⟩ := ih (fun x hx => hk x (by simp [hx]))
+    simp only [keysOf, noKeys] at i1 i2 ⊢
+    simp [List.takeWhile_cons, List.dropWhile_cons, h1, i1, i2]
+
+theorem normN_inner_form {y : DNode} (h : y.isTerm = false) : normN y = .inner y.sid {} [] (normL13 y.kids) := by
+  cases y with
+  | term => simp [DNode.isTerm] at h
+  | inner => rfl
+
+theorem litL_mem : ∀ {l : List DNode} {x : DNode}, litL l = true → x ∈ l → litN x = true := fun h hx =>
+  (litL_iff_forall _).mp h _ hx
+
+/-- two inner nodes with operation `none` meet: the children of the source node are merged into the children of the target
+node (induction hypothesis `IH`); the node is kept unless no child is left -/
+theorem merge_matched_inner {S : Schema} (K : KeyOrderOn S P) {o : MergeOpts} {n : Nat} {hp : Bool} {cur sin : Option Op}
+    (hcur : InhOK cur) (hsin : InhOK sin) {s : Nat} {f : Flags} {ms : List Meta} {ks : List DNode} {t : DNode}
+    {kp pre rest L Y : List DNode} {E : DNode → Option DNode} (IH : ListMergeSpec S P fx o ks)
+    (hh : (DNode.inner s f ms ks).height ≤ n) (hgL : goodT S P L = true) (hgY : goodT S P Y = true)
+    (hkp : ∀ k ∈ kp, S.isKey k.sid = true ∧ k.sid < s)
+    (hT : TInv S P fx cur (pre ++ t :: rest) L E) (hR : Rel S P (pre ++ t :: rest) L E Y)
+    (hpre : ∀ a ∈ pre, matchP S (.inner s f ms ks) a = false) (hm : matchP S (.inner s f ms ks) t = true)
+    (hO : Orig S P cur L t) (hsafe : safeP S cur sin t (.inner s f ms ks) = true)
+    (hsex : exactE S P sin (look S Y (.inner s f ms ks)) (.inner s f ms ks) = true) (hls : litN (.inner s f ms ks) = true)
+    (hkb : KeysBelow S (.inner s f ms ks) Y) :
+    MergeConcl S P fx o n hp cur sin (.inner s f ms ks) kp (pre ++ t :: rest) L Y := by
+  obtain ⟨htex, hlt⟩ := hO
+  obtain ⟨hsd, _, hsk⟩ := exactE_base hsex
+  obtain ⟨htd, _, htk⟩ := exactE_base htex
+  simp only [safeP, Bool.and_eq_true, Bool.not_eq_eq_eq_not, Bool.not_true, beq_iff_eq] at hsafe
+  obtain ⟨⟨⟨⟨htnt, hcop⟩, hsop⟩, hkord⟩, hsafeK⟩ := hsafe
+  cases t with
+  | term => simp [DNode.isTerm] at htnt
+  | inner st ft mt kt =>
+  have hss : st = s := matchP_sid hm
+  subst hss
+  obtain ⟨x, hx, hnet, hexkt⟩ := exactE_none_inner htex hcop
+  obtain ⟨y, hy, hnes, hexks⟩ := exactE_none_inner hsex hsop
+  obtain ⟨hgx, hxs⟩ := good_look hgL x hx
+  obtain ⟨hgy, hys⟩ := good_look hgY y hy
+  have hgxk := goodN_kidsT hgx
+  have hgyk := goodN_kidsT hgy
+  have hmem : DNode.inner st ft mt kt ∈ pre ++ DNode.inner st ft mt kt :: rest := by simp
+  have hperm : (pre ++ DNode.inner st ft mt kt :: rest).Perm (DNode.inner st ft mt kt :: (pre ++ rest)) := List.perm_middle
+  have hT1 := hT.perm hperm
+  have hR1 := hR.perm hperm
+  have hxt : x.isTerm = false := by
+    rw [(goodN_dom hgx).typed, hxs, ← htd.typed]; rfl
+  have hyt : y.isTerm = false := by
+    rw [(goodN_dom hgy).typed, hys, ← hsd.typed]; rfl
+  -- the children of the target node on the children of the instance
+  obtain ⟨Ek, V, hTk, hAk, hRelk⟩ := kids_inv (fx := fx) K hgxk hexkt
+  have hactt : Acts S P fx cur (.inner st ft mt kt) (some (normN x)) (some (.inner st {} [] V)) :=
+    acts_none_inner (y := normN x) K htd htk hcop hnet (by simpa using hAk)
+  have hactt' : Acts S P fx cur (.inner st ft mt kt) ((look S L (.inner st ft mt kt)).map normN) (some (.inner st {} [] V)) := by
+    rw [hx]; exact hactt
+  have hEt : E (.inner st ft mt kt) = some (.inner st {} [] V) :=
+    Acts.det (hT.acts _ hmem) hactt' hgL (hT.kb _ hmem) rfl
+  have hlY : look S Y (.inner st f ms ks) = look S Y (.inner st ft mt kt) := look_congr K (goodT_goodL hgY) hsd htd hm
+  have hyV : normL13 y.kids = V := by
+    have h1 := hR.on _ hmem
+    rw [← hlY, hy, hEt] at h1
+    simp only [Option.map_some, Option.some.injEq, normN_inner_form hyt, DNode.inner.injEq] at h1
+    exact h1.2.2.2
+  obtain ⟨hRk, hkYk, _⟩ := hRelk y.kids hgyk hyV
+  -- the induction hypothesis
+  obtain ⟨k, rfl⟩ : ∃ k, n = k + 1 := ⟨n - 1, by have := height_pos13 (DNode.inner st f ms ks); omega⟩
+  have hks : heightL ks ≤ k := height_inner_le hh
+  have hdk : dk S true ks = noKeys S ks := by simp [dk]
+  have hcur' := childInh_inhOK hcop hcur
+  have hsin' := childInh_inhOK hsop hsin
+  obtain ⟨Mk, Ek', Yk', hmk, hYk', hgYk', _, hTk', hRk'⟩ := IH k true (childInhOf (.inner st ft mt kt) cur)
+    (childInhOf (.inner st f ms ks) sin) true (keysOf S kt) (noKeys S kt) x.kids y.kids Ek hcur' hsin' hks hgxk hgyk hkYk
+    (by
+      intro kk hkk
+      refine ⟨keysOf_all_key S kt kk hkk, ?_⟩
+      intro c hc
+      rw [hdk] at hc
+      have := List.all_eq_true.mp (List.all_eq_true.mp hkord kk hkk) c hc
+      simpa using this)
+    hTk hRk
+    (by
+      intro c hc tk htk hmc
+      rw [hdk] at hc
+      have h1 := exactK_mem true kt hexkt tk (by simpa [dk] using htk)
+      exact ⟨⟨h1.1, litL_mem (by simpa [litN] using hlt) ((noKeys_sublist S kt).subset htk)⟩,
+        safeK_mem hsafeK c ((noKeys_sublist S ks).subset hc) tk htk hmc⟩)
+    hexks (by simpa [litN] using hls)
+  rw [keysOf_append_noKeys] at hmk
+  rw [hdk] at hYk'
+  -- the source node on `Y`
+  obtain ⟨V2, hV2⟩ := listFwd (fx := fx) K ks (childInhOf (.inner st f ms ks) sin) y.kids true hgyk hexks
+  rw [hdk] at hV2
+  have hV2' : normL13 Yk' = V2 := by
+    obtain ⟨X1, h1, _, _, h4⟩ := hV2 k true y.kids (Nat.le_trans (heightL_noKeys_le S ks) hks) hgyk rfl
+    rw [hYk'] at h1
+    cases h1
+    exact h4
+  have hacts : Acts S P fx sin (.inner st f ms ks) (some (normN y)) (some (.inner st {} [] V2)) :=
+    acts_none_inner (y := normN y) K hsd hsk hsop hnes (by simpa using hV2)
+  obtain ⟨Y', hY', hgY', hkY', hloc, hval⟩ := hacts (k + 1) hp Y hh hgY hkb (by rw [hy]; rfl)
+  -- the merge step
+  have hMk : ∀ m ∈ Mk, S.isKey m.sid = false := hTk'.lvl.nokey
+  obtain ⟨hko, hno⟩ := split_keys (S := S) (keysOf_all_key S kt) hMk
+  have hSt : S.isTerm st = false := by have := hsd.typed; simpa [DNode.isTerm, DNode.sid] using this.symm
+  have hcell : mergeCell S o .none (.inner st ft mt kt) .none (.inner st f ms ks) = .ok (.inner st ft mt kt, false) := by
+    simp [mergeCell, mergeNone, Except.map, DNode.sid, hSt]
+  have hkids : (fun (c' s' : Option Op) (tk : List DNode) =>
+      if (DNode.inner st f ms ks).isTerm then Except.ok tk else mergeKids S o c' s' true (DNode.inner st f ms ks).kids tk)
+      (childInhOf (.inner st ft mt kt) cur) (childInhOf (.inner st f ms ks) sin) (DNode.inner st ft mt kt).kids =
+        .ok (keysOf S kt ++ Mk) := by
+    simp only [DNode.isTerm, Bool.false_eq_true, ↓reduceIte, DNode.kids]
+    exact hmk
+  have hpre' : ∀ a ∈ kp ++ pre, matchP S (.inner st f ms ks) a = false := by
+    intro a ha
+    rcases List.mem_append.mp ha with ha | ha
+    · exact matchP_key_lt (hkp a ha).2
+    · exact hpre a ha
+  have hassoc : kp ++ (pre ++ DNode.inner st ft mt kt :: rest) = (kp ++ pre) ++ DNode.inner st ft mt kt :: rest := by simp
+  have hsetk : (DNode.inner st ft mt kt).setKids (keysOf S kt ++ Mk) = .inner st ft mt (keysOf S kt ++ Mk) := rfl
+  have hopt' : effOp (DNode.inner st ft mt (keysOf S kt ++ Mk)) cur = some .none :=
+    (effOp_congr_metas (d := .inner st ft mt kt) (d' := .inner st ft mt (keysOf S kt ++ Mk)) rfl).trans hcop
+  have hndi : S.isDupInst st = false := htd.ndi
+  have hnuo : S.isUserOrd st = false := htd.nuo
+  obtain ⟨V', hA', hU'⟩ := hTk'.actsL K hgxk
+  have hVV : normL13 Yk' = V' := hU' Yk' hgYk' hRk'
+  cases hMe : Mk with
+  | nil =>
+    -- nothing is left below the node: it is dropped
+    subst hMe
+    have hred : (isRedundant S cur ((DNode.inner st ft mt kt).setKids (keysOf S kt ++ []))).2 = true := by
+      rw [hsetk]
+      exact redundant_none_nokids S cur _ hopt' hSt (by simpa [DNode.kids] using hno)
+    have hstep := mergeStep_cancel S o cur sin (.inner st f ms ks) (.inner st ft mt kt) (.inner st ft mt kt) (kp ++ pre) rest
+      (keysOf S kt ++ []) .none .none
+      (fun c' s' tk => if (DNode.inner st f ms ks).isTerm then Except.ok tk
+        else mergeKids S o c' s' true (DNode.inner st f ms ks).kids tk)
+      hsop hcop hpre' hm hndi hndi hcell hkids hred
+    rw [← mergeR_eq, ← hassoc] at hstep
+    have hV'x : V' = normL13 x.kids := by
+      obtain ⟨X1, h1, _, _, h4⟩ := hA' 0 true x.kids (by simp [heightL]) hgxk rfl
+      simp only [applyF_nil] at h1
+      cases h1
+      exact h4.symm
+    have hvalx : (look S Y' (.inner st f ms ks)).map normN = (look S L (.inner st ft mt kt)).map normN := by
+      rw [hval, hx, ← hV2', hVV, hV'x]
+      simp only [Option.map_some, Option.some.injEq, normN_inner_form hxt, hxs]
+      rfl
+    obtain ⟨hT2, hR2⟩ := tinv_drop K hT1 hR1 hgL hsd hm hloc hvalx hgY'
+    exact ⟨pre ++ rest, E, Y', by rw [hstep]; simp, hY', hgY', hkY', hloc, hT2, hR2,
+      fun z hz => Or.inl (by rcases List.mem_append.mp hz with h | h <;> simp [h])⟩
+  | cons m0 Mr =>
+    -- the node is kept with the merged children
+    have hne : (noKeys S (keysOf S kt ++ Mk)).isEmpty = false := by rw [hno, hMe]; rfl
+    have hredf : isRedundant S cur (DNode.inner st ft mt (keysOf S kt ++ Mk)) = (DNode.inner st ft mt (keysOf S kt ++ Mk), false) := by
+      unfold isRedundant
+      simp [hopt', DNode.sid, DNode.kids, hSt, hndi, hnuo, hne, op_beq]
+    have hstep := mergeStep_keep S o cur sin (.inner st f ms ks) (.inner st ft mt kt) (.inner st ft mt kt) (kp ++ pre) rest
+      (keysOf S kt ++ Mk) .none .none
+      (fun c' s' tk => if (DNode.inner st f ms ks).isTerm then Except.ok tk
+        else mergeKids S o c' s' true (DNode.inner st f ms ks).kids tk)
+      hsop hcop hpre' hm hndi hndi hcell hkids (by rw [hsetk, hredf])
+    rw [← mergeR_eq, ← hassoc, hsetk, hredf] at hstep
+    let t' : DNode := .inner st ft mt (keysOf S kt ++ Mk)
+    have hmd : Dom S P t' := by
+      refine ⟨hnuo, hndi, by have := htd.typed; simpa [t', DNode.isTerm, DNode.sid] using this, ?_⟩
+      rw [K.pinv.pcongr (x := t') (y := .inner st ft mt kt) rfl rfl (by simp only [t', DNode.kids, hko])]
+      exact htd.sat
+    have hmm : ∀ z, matchP S t' z = matchP S (.inner st ft mt kt) z := fun z =>
+      matchP_of_same_keys (d := .inner st ft mt kt) (d' := t') hndi rfl rfl (by simp only [t', DNode.kids, hko]) z
+    have hactm : Acts S P fx cur t' (some (normN x)) (some (.inner st {} [] V')) := by
+      apply acts_none_inner (y := normN x) K hmd htk hopt' hne
+      rw [hno, childInh_congr_metas (d := .inner st ft mt kt) (d' := .inner st ft mt (keysOf S kt ++ Mk)) rfl]
+      simpa using hA'
+    obtain ⟨hT2, hR2⟩ := tinv_set K hT1 hR1 hmd htk hmm rfl (by rw [hx]; exact hactm) hsd hm hloc
+      (by rw [hval, ← hV2', hVV]) hgY'
+    have hperm2 : (t' :: (pre ++ rest)).Perm (pre ++ t' :: rest) := List.perm_middle.symm
+    refine ⟨pre ++ t' :: rest, _, Y', by rw [hstep]; simp [t'], hY', hgY', hkY', hloc, hT2.perm hperm2, hR2.perm hperm2, ?_⟩
+    intro z hz
+    rcases List.mem_append.mp hz with h | h
+    · exact Or.inl (by simp [h])
+    · rcases List.mem_cons.mp h with rfl | h
+      · exact Or.inr (matchP_src_of_left K hsd htd hmd hmm hm)
+      · exact Or.inl (by simp [h])
+
+/-! ### the induction over the source diff -/
+
+theorem listMerge_nil (S : Schema) (o : MergeOpts) : ListMergeSpec S P fx o [] := by
+  intro n hp cur sin ld kp Tb L Y E _ _ _ _ hgY _ _ hT hR _ _ _
+  have hdk : dk S ld [] = [] := by cases ld <;> simp [dk, noKeys]
+  exact ⟨Tb, E, Y, mergeKids_nil S o cur sin ld _, by rw [hdk]; rfl, hgY, rfl, hT, hR⟩
+
+theorem listMerge_cons {S : Schema} (K : KeyOrderOn S P) {o : MergeOpts} {c : DNode} {cs : List DNode}
+    (hc : NodeMergeSpec S P fx o c) (hcs : ListMergeSpec S P fx o cs) : ListMergeSpec S P fx o (c :: cs) := by
+  intro n hp cur sin ld kp Tb L Y E hcur hsin hh hgL hgY hkY hkp hT hR hmeet hex hlit
+  have hhc : c.height ≤ n := Nat.le_trans (Nat.le_max_left ..) hh
+  have hhcs : heightL cs ≤ n := Nat.le_trans (Nat.le_max_right ..) hh
+  simp only [litL, Bool.and_eq_true] at hlit
+  by_cases hlk : (ld && S.isKey c.sid) = true
+  · -- a leading list key: not part of the diff
+    simp only [Bool.and_eq_true] at hlk
+    obtain ⟨rfl, hk⟩ := hlk
+    have hex' : exactK S P sin Y true cs = true := by
+      unfold exactK at hex
+      simpa [hk] using hex
+    rw [dk_cons_key hk] at hkp hmeet ⊢
+    rw [mergeKids_cons_key S o cur sin c cs _ hk]
+    exact hcs n hp cur sin true kp Tb L Y E hcur hsin hhcs hgL hgY hkY hkp hT hR hmeet hex' hlit.2
+  · -- a diff node
+    have hex' := hex
+    unfold exactK at hex'
+    simp only [hlk, Bool.false_eq_true, ↓reduceIte, Bool.and_eq_true] at hex'
+    obtain ⟨⟨⟨hE, hkbY⟩, hdist⟩, hrest⟩ := hex'
+    obtain ⟨hd, _, hk⟩ := exactE_base hE
+    have hkbL : KeysBelow S c Y := by
+      intro k hkm
+      have := List.all_eq_true.mp hkbY k hkm
+      simpa using this
+    have hdkD : dk S ld (c :: cs) = c :: cs := dk_cons_nokey hk ld
+    rw [hdkD] at hkp hmeet ⊢
+    have hdk0 : dk S false cs = cs := by simp [dk]
+    have hdcs : ∀ c' ∈ cs, Dom S P c' ∧ matchP S c c' = false := by
+      intro c' hc'
+      have h1 := exactK_mem false cs hrest c' (by simpa [dk] using hc')
+      have h2 := List.all_eq_true.mp hdist c' hc'
+      exact ⟨(exactE_base h1.1).1, by simpa using h2⟩
+    obtain ⟨M1, E1, Y1, hm1, ha1, hgY1, hkY1, hloc1, hT1, hR1, hnew⟩ := hc n hp cur sin kp Tb L Y E hcur hsin hhc hgL hgY hkY
+      (fun k hk' => ⟨(hkp k hk').1, (hkp k hk').2 c (List.mem_cons_self ..)⟩) hT hR
+      (fun t ht hmt => hmeet c (List.mem_cons_self ..) t ht hmt) hE hlit.1 hkbL
+    have hexcs : exactK S P sin Y1 false cs = true := by
+      rw [exactK_congr hkY1 false cs (fun c'' hc'' => hloc1 c'' (hdcs c'' hc'').1 (hdcs c'' hc'').2)]
+      exact hrest
+    obtain ⟨M, E', Y', hm, ha, hgY', hkY', hT', hR'⟩ := hcs n hp cur sin false kp M1 L Y1 E1 hcur hsin hhcs hgL hgY1
+      (fun c' hc' => hkY c' (by intro k hk'; rw [← hkY1] at hk'; exact hc' k hk'))
+      (fun k hk' => ⟨(hkp k hk').1, fun c' hc' => (hkp k hk').2 c' (List.mem_cons_of_mem _ (by simpa [dk] using hc'))⟩)
+      hT1 hR1
+      (by
+        intro c' hc' t ht hmt
+        rw [hdk0] at hc'
+        rcases hnew t ht with hin | hct
+        · exact hmeet c' (List.mem_cons_of_mem _ hc') t hin hmt
+        · exfalso
+          have h1 := matchP_right_congr K (hdcs c' hc').1 hd (hT1.lvl.dom t ht) hct
+          rw [hmt, matchP_symm K (hdcs c' hc').1 hd, (hdcs c' hc').2] at h1
+          cases h1)
+      hexcs hlit.2
+    rw [hdk0] at ha
+    refine ⟨M, E', Y', ?_, ?_, hgY', hkY'.trans hkY1, hT', hR'⟩
+    · rw [mergeKids_cons_nokey S o cur sin ld c cs _ _ hk hm1]
+      exact hm
+    · rw [applyF_cons, ha1]
+      exact ha
+
+mutual
+/-- every node of the second diff is merged correctly -/
+theorem nodeMerge {S : Schema} (K : KeyOrderOn S P) {o : MergeOpts}
+    (hq : o.defaults = true → Generated.Diff13.mergeDfltNeedsDeletedDflt = true) : ∀ src : DNode, NodeMergeSpec S P fx o src
+  | .inner s f ms ks => by
+    intro n hp cur sin kp Tb L Y E hcur hsin hh hgL hgY hkY hkp hT hR hmeet hsex hls hkb
+    cases hfind : Tb.find? (matchP S (.inner s f ms ks)) with
+    | none =>
+      have hun : ∀ t ∈ Tb, matchP S (.inner s f ms ks) t = false := by
+        intro t ht
+        have := List.find?_eq_none.mp hfind t ht
+        simpa using this
+      exact merge_unmatched K hh hgY hkY hkp hT hR hun hsex hkb
+    | some t =>
+      obtain ⟨hm, pre, rest, rfl, hpre⟩ := List.find?_eq_some_iff_append.mp hfind
+      obtain ⟨hO, hsafe⟩ := hmeet t (by simp) hm
+      exact merge_matched_inner K hcur hsin (listMerge K hq ks) hh hgL hgY hkp hT hR
+        (fun a ha => by simpa using hpre a ha) hm hO hsafe hsex hls hkb
+  | .term s f ms v => by
+    intro n hp cur sin kp Tb L Y E hcur hsin hh hgL hgY hkY hkp hT hR hmeet hsex hls hkb
+    cases hfind : Tb.find? (matchP S (.term s f ms v)) with
+    | none =>
+      have hun : ∀ t ∈ Tb, matchP S (.term s f ms v) t = false := by
+        intro t ht
+        have := List.find?_eq_none.mp hfind t ht
+        simpa using this
+      exact merge_unmatched K hh hgY hkY hkp hT hR hun hsex hkb
+    | some t =>
+      obtain ⟨hm, pre, rest, rfl, hpre⟩ := List.find?_eq_some_iff_append.mp hfind
+      obtain ⟨hO, hsafe⟩ := hmeet t (by simp) hm
+      exact merge_matched_term K hq hcur hsin hh hgL hgY hkp hT hR (fun a ha => by simpa using hpre a ha) hm hO hsafe
+        hsex hls hkb rfl
+/-- every sibling list of the second diff is merged correctly -/
+theorem listMerge {S : Schema} (K : KeyOrderOn S P) {o : MergeOpts}
+    (hq : o.defaults = true → Generated.Diff13.mergeDfltNeedsDeletedDflt = true) : ∀ cs : List DNode, ListMergeSpec S P fx o cs
+  | [] => listMerge_nil S o
+  | c :: cs => listMerge_cons K (nodeMerge K hq c) (listMerge K hq cs)
+end
+
 end LyModel.Diff.K13
